@@ -899,8 +899,9 @@ def run(ck):
         mc = {
             "intended fs 2 configs": ex.submit(bcc_tlc, "int_fs", keycfg=True, coverage=quick),
             "intended fs 2 names": ex.submit(bcc_tlc, "int_fs2", keycfg=True, names=("t", "u"),
-                                             trunc=(3,) if quick else (0, 3, 5), foreign=not quick,
-                                             stages=("tempPartial",) if quick else ("tempPartial", "replaced")),
+                                             trunc=(3,) if quick else (3, 5), foreign=False,
+                                             stages=("tempPartial",) if quick else ("tempPartial", "replaced"),
+                                             workers=4 if quick else 8),
             "intended mem ignore": ex.submit(bcc_tlc, "int_mem1", keycfg=True, store="mem", ignore=True),
             "intended mem no-ignore": ex.submit(bcc_tlc, "int_mem0", keycfg=True, store="mem", ignore=False),
             "as implemented, same config": ex.submit(bcc_tlc, "impl_same", cfgof=("c1", "c1")),
@@ -1003,8 +1004,8 @@ def run(ck):
         "concurrent processes are model-checked (BCCacheWrite.tla) but replayed only as interrupted writes",
     ]
     ck.exhaustive = not quick
-    ck.extra["exhaustive_note"] = ("every transition of the bounded state graphs is replayed; byte offsets: every "
-                                   "truncation offset; crash offsets every 5th byte + class boundaries in quick, all in thorough")
+    ck.extra["exhaustive_note"] = ("every transition of the bounded state graphs is replayed; byte offsets: "
+                                   "truncation every 2nd offset + the whole checksum range + class boundaries, crash every 7th offset + boundaries in quick; every offset in thorough")
     ck.assumptions += [
         "killing a forked child at a file operation / after n flushed bytes is what an interrupted write leaves behind",
         "a cache-less environment of the same configuration is the reference for 'what compiling the current source renders'",
